@@ -16,6 +16,8 @@ import z3
 Int = z3.IntSort()
 Bool = z3.BoolSort()
 Ref = z3.DeclareSort("Ref")          # opaque objects: Paths, PathSpecs, match objects, ...
+NONE_REF = z3.Const("ref!None", Ref)      # the value of a nullable reference ("nref:Cls") that is None
+
 
 
 _nodes: dict = {}
